@@ -111,6 +111,8 @@ def curated():
          tags=['trigger', 'chain', 'delay']))
     a(mk('shortcut3_sym', ['A', 'B', 'C'], {'A': 'hy', 'B': 'ev', 'C': 'hy'}, [('A', 'B'), ('B', 'C'), ('A', 'C', {'k': 'sym', 'i': 't2'})],
          tags=['trigger', 'chain', 'delay', 'nocache']))
+    a(mk('fanin_tb', ['A', 'B', 'C'], {'A': 'tb', 'B': 'tb', 'C': 'hy'}, [('A', 'C', {'i': 'm'}), ('B', 'C', {'i': 't'})],
+         tags=['data', 'trigger', 'lazy']))
     a(mk('fanout', ['A', 'B', 'C'], {'A': 'hy', 'B': 'hy', 'C': 'tb'}, [('A', 'B'), ('A', 'C', {'o': 'p'})], tags=['data', 'trigger']))
     a(mk('loop3shift', ['A', 'B', 'C'], {'A': 'hy', 'B': 'hy', 'C': 'hy'}, [('A', 'B'), ('B', 'C'), ('C', 'A', {'k': 1})],
          tags=['cycle', 'trigger']))
